@@ -257,6 +257,33 @@ def run(cx, rep):
                    "%s.describeTypeExpr has a return that does not depend on %s although the description reads %s elsewhere: for some validators the printed type loses that part (and compiles back to another validator)" % (
                        cn, missing, missing), mod.loc(r), sample={"class": cn, "return_depends_on": sorted(deps), "fields_described": sorted(D)})
     rep.floor("C15.6", "return sites of describeTypeExpr", n_ret, 20)
+    # ---------------------------------------------------------------- C15.7
+    rep.rule("C15.7", "the reference count that decides between inlining and declaring counts every occurrence")
+    # describe() declares a named type (instead of pasting its text) when it is referenced more than once or
+    # recursively; the count comes from a walk over describeChildren().  The walk over the children of an ANONYMOUS
+    # node must not depend on what was visited before: structurally identical nodes are one shared JS object (the
+    # compiler hoists them), so an identity-based `visited` skip makes the second occurrence invisible, the count too
+    # small, and a shared / recursive type is inlined (twice, or forever).
+    n_walk = 0
+    for fname, d in sorted(mod.functions.items()):
+        if d.get("body") is None:
+            continue
+        ps = ts_common.fn_params(d)
+        loops = [l for l in walk(d) if l["type"] == "ForOfStatement" and method_call(l["right"]) and method_call(l["right"])[1] == "describeChildren"]
+        iters = [c_ for c_ in walk(d) if c_["type"] == "CallExpression" and method_call(c_) and method_call(c_)[1] in ts_common.ITER_METHODS
+                 and method_call(method_call(c_)[0]) and method_call(method_call(c_)[0])[1] == "describeChildren"]
+        recursive = any(c_["type"] == "CallExpression" and s(c_["callee"]) == fname for c_ in walk(d))
+        if not (loops or iters) or not recursive or len(ps) < 2:
+            continue
+        ctxp = ps[1]
+        for site in loops + iters:
+            n_walk += 1
+            ka = ts_common.known_atoms(d, site)
+            dep = sorted(a_ for a_ in ka if re.search(r"(?<![\w.])%s\b" % re.escape(ctxp), a_))
+            rep.ob("C15.7", "%s/children-walk" % fname, not dep,
+                   "%s walks the children of a node only under %s: whether an occurrence is counted depends on what was visited before, so types reached through a shared (hoisted) node are under-counted and inlined instead of declared" % (fname, dep),
+                   mod.loc(site), sample={"fn": fname, "conditions": sorted(ka)})
+    rep.floor("C15.7", "children walks of the reference-counting pass", n_walk, 1)
     # ---------------------------------------------------------------- C15.4
     rep.rule("C15.4", "recursion guards and single declaration")
     for cn, c in sorted(fam.classes.items()):
